@@ -57,7 +57,19 @@ func genC04(tier string, seed uint64) *simkit.Plan {
 				b := bad[r.Intn(len(bad))]
 				st.RMin, st.RMax = b[0], b[1]
 			}
+			if r.Chance(0.15) {
+				// only one factor given: the other comes from the configuration, and
+				// the pair that results is what has to be valid
+				if r.Bool() {
+					st.RMin = 0
+				} else {
+					st.RMax = 0
+				}
+			}
 			st.Name = names[r.Intn(len(names))]
+			if r.Chance(0.3) {
+				st.Via = "rpc"
+			}
 			st.Direct = r.Chance(0.3)
 			switch r.Pick(6, 2, 1) {
 			case 1:
@@ -92,6 +104,9 @@ func genC04(tier string, seed uint64) *simkit.Plan {
 			st.Op = "unpin"
 			st.Cid = r.Intn(ncids)
 			st.Path = r.Chance(0.2)
+			if r.Chance(0.3) {
+				st.Via = "rpc"
+			}
 		case 2:
 			st.Op = "pinupdate"
 			st.Cid = r.Intn(ncids)
@@ -463,6 +478,14 @@ func execC04(plan *simkit.Plan, run *simkit.Run) {
 				}
 				ret, err = n0.cl.PinPath(ctx, p, opts)
 				label = "PinPath(" + label + ")"
+			} else if s.Via == "rpc" {
+				// the way the REST API and the IPFS proxy reach the peer: its own
+				// Cluster.Pin RPC endpoint
+				var out api.Pin
+				err = n0.tr.Client.CallContext(ctx, "", "Cluster", "Pin", api.PinWithOpts(target, opts), &out)
+				ret = &out
+				label = "RPC Cluster.Pin(" + label + ")"
+				run.Probe("pins_through_rpc_endpoint")
 			} else {
 				ret, err = n0.cl.Pin(ctx, target, opts)
 				label = "Pin(" + label + ")"
@@ -475,6 +498,11 @@ func execC04(plan *simkit.Plan, run *simkit.Run) {
 				}
 				ret, err = n0.cl.UnpinPath(ctx, p)
 				label = "UnpinPath(" + label + ")"
+			} else if s.Via == "rpc" {
+				var out api.Pin
+				err = n0.tr.Client.CallContext(ctx, "", "Cluster", "Unpin", api.PinCid(target), &out)
+				ret = &out
+				label = "RPC Cluster.Unpin(" + label + ")"
 			} else {
 				ret, err = n0.cl.Unpin(ctx, target)
 				label = "Unpin(" + label + ")"
